@@ -69,6 +69,23 @@ BoundOKD(method, n, k, which, b, kind, li) ==
             THEN IsLeftRootD(method, n, k, b, z2e)
             ELSE IsRightRootD(method, n, k, b, z2e)
 
+\* The judge for an explicitly given sign and a WIDE z^2 enclosure (levels outside the grid, where the enclosure admits the
+\* rounding of the target probability): b is accepted when it is within D of the root for SOME z^2 of the enclosure.  The
+\* left root decreases and the right root increases with z^2, and k/n lies between the roots.
+IsLeftRootX(method, n, k, b, z2e) ==
+    /\ DySign(Poly(method, n, k, DySub(b, D), z2e[1])) > 0
+    /\ DySign(Poly(method, n, k, DyAdd(b, D), z2e[2])) < 0
+    /\ DyLe(DyMulInt(DySub(b, D), n), DyOfInt(k))
+IsRightRootX(method, n, k, b, z2e) ==
+    /\ DySign(Poly(method, n, k, DyAdd(b, D), z2e[1])) > 0
+    /\ DySign(Poly(method, n, k, DySub(b, D), z2e[2])) < 0
+    /\ DyLe(DyOfInt(k), DyMulInt(DyAdd(b, D), n))
+BoundOKZ(method, n, k, which, b, sg, z2e) ==
+    IF sg = 0 THEN IsDoubleRoot(n, k, b)
+    ELSE IF (which = "lo") = (sg > 0)
+         THEN IsLeftRootX(method, n, k, b, z2e)
+         ELSE IsRightRootX(method, n, k, b, z2e)
+
 In01(b) == DySign(b) >= 0 /\ DyLe(b, One)
 \* k/n compared with a dyadic bound:  b <= k/n  <=>  n b <= k
 LeKN(b, n, k) == DyLe(DyMulInt(b, n), DyOfInt(k))
